@@ -28,7 +28,7 @@ VARIABLES form, k, rs, n, pc
 vars == <<form, k, rs, n, pc>>
 
 CondForms  == {"and_chain", "or_chain", "map_group", "seq_group", "not1",
-               "all_seq", "of_seq", "all_map", "of_map"}
+               "all_seq", "of_seq", "all_map", "of_map", "mx_not", "nest_and"}
 KeyForms   == {"klist", "kall", "kof", "klist_mix", "kall_mix", "kof_mix", "knot"}
 Forms == CondForms \cup KeyForms
 Thresholded == {"of_seq", "of_map", "kof", "kof_mix"}
@@ -44,7 +44,7 @@ Init == /\ pc = "start"
         /\ form \in Forms
         /\ k \in 1..MaxK
         /\ rs \in Vectors(form, k)
-        /\ n \in (IF form \in Thresholded THEN 0..(k + 1) ELSE {0})
+        /\ n \in (IF form \in Thresholded THEN 0..(k + 1) ELSE IF form = "mx_not" THEN 0..2 ELSE {0})
         /\ (form = "not1" => k = 1)
         /\ (form \in KeyForms => k >= 2)
 
@@ -81,6 +81,13 @@ SrcFor(o) ==
     [] form = "of_seq"    -> Src(OfC(A, n), << <<A, SeqB([i \in 1..k |-> Atom(o[i])])>> >>)
     [] form = "all_map"   -> Src(AllC(A), << <<A, MapB([i \in 1..k |-> Ent(Fld(o[i]), ExactP(X))])>> >>)
     [] form = "of_map"    -> Src(OfC(A, n), << <<A, MapB([i \in 1..k |-> Ent(Fld(o[i]), ExactP(X))])>> >>)
+    (* mx_not: a sequence of two-key mappings sharing field f0 (the matrix optimisation makes it a   *)
+    (* table whose rows have two cells) under a negation                                            *)
+    [] form = "mx_not"    -> Src(NotC(Id(A)), << <<A, SeqB([i \in 1..k |-> MapB(<<Ent(Fld(o[i]), ExactP(X)), Ent(Fld(9), ExactP(X))>>)])>> >>)
+    (* nest_and: k nested blocks on one field p, one identifier each, and-ed (shake merges them);    *)
+    (* the document holds p as an ARRAY of two objects                                              *)
+    [] form = "nest_and"  -> Src(Chain("and", [i \in 1..k |-> Id(IdN(o[i]))]),
+                                 [i \in 1..k |-> <<IdN(i), MapB(<<Ent(<<112>>, MapV(<<Ent(Letter(i), ExactP(X))>>))>>)>>])
     [] form = "klist"     -> Src(Id(A), << <<A, MapB(<<Ent(Fld(0), KeyListO(FALSE, o))>>)>> >>)
     [] form = "kall"      -> Src(Id(A), << <<A, MapB(<<EntM("all", 0, Fld(0), KeyListO(FALSE, o))>>)>> >>)
     [] form = "kof"       -> Src(Id(A), << <<A, MapB(<<EntM("of", n, Fld(0), KeyListO(FALSE, o))>>)>> >>)
@@ -91,7 +98,13 @@ SrcFor(o) ==
 CaseSrc == SrcFor(IdOrd)
 
 
-CaseDoc == IF form \in KeyForms THEN KeyDoc ELSE AtomDoc
+(* the shared field f9 (written LAST in every mapping, and the last column): n = 0 matching, 1 present and different, 2 absent *)
+MxDoc == OV(AtomDoc.kv \o (IF n = 2 THEN <<>> ELSE << <<Fld(9), SV(IF n = 0 THEN X ELSE Y)>> >>))
+NestElem(v) == OV(Flat([i \in 1..k |-> IF v[i] = "M" THEN <<>> ELSE << <<Letter(i), SV(IF v[i] = "T" THEN X ELSE Y)>> >>]))
+Rev(v) == [i \in 1..k |-> v[k + 1 - i]]
+NestDoc == OV(<< <<(<<112>>), AV(<<NestElem(rs), NestElem(Rev(rs))>>)>> >>)
+CaseDoc == IF form \in KeyForms THEN KeyDoc ELSE IF form = "mx_not" THEN MxDoc
+           ELSE IF form = "nest_and" THEN NestDoc ELSE AtomDoc
 
 -----------------------------------------------------------------------------
 (* the truth tables on the abstract vector *)
@@ -102,6 +115,7 @@ Adm ==
     [] form = "knot" -> {Not(OrN(rs))}
     [] form \in {"all_seq", "all_map", "kall", "kall_mix"} -> AllAdm(rs)
     [] form \in Thresholded -> OfAdm(n, rs)
+    [] form \in {"mx_not", "nest_and"} -> LangEval(CaseSrc, CaseDoc)      \* no abstract vector form
 
 (* the solver's loops on the abstract vector (engine layer of TauTri) *)
 RECURSIVE FoldAnd2(_), FoldOr2(_)
@@ -131,14 +145,14 @@ Eng ==
     [] form = "all_seq"   -> EngAllGroup(rs)
     [] form = "of_seq"    -> EngOfGroup(n, rs)
     [] form = "all_map"   -> IF k = 1 THEN rs[1] ELSE EngAllGroup(rs)
-    [] form = "of_map"    -> IF k = 1 THEN (IF "of_single_ignores_count" \in Dev \/ n <= 1 THEN EngOfSingle(n, rs[1])
-                                              ELSE IF rs[1] = "T" THEN "F" ELSE rs[1])
-                             ELSE EngOfGroup(n, rs)
+    [] form = "of_map"    -> IF k = 1 THEN EngOfSingle(n, rs[1]) ELSE EngOfGroup(n, rs)
     [] form = "klist"     -> Batched(rs)
     [] form = "knot"      -> EngNot(Batched(rs))
     [] form = "kall"      -> IF rs[1] = "M" THEN "M" ELSE IF Trues(rs) = k THEN "T" ELSE "F"
     [] form = "kof"       -> IF n = 0 THEN EngOfSingle(0, Batched(rs))
                              ELSE IF rs[1] = "M" THEN "M" ELSE IF Trues(rs) >= n THEN "T" ELSE "F"
+    [] form = "mx_not"    -> CHOOSE r \in LangEval(CaseSrc, CaseDoc) : TRUE
+    [] form = "nest_and"  -> CHOOSE r \in LangEval(CaseSrc, CaseDoc) : TRUE
     [] form = "klist_mix" -> EngOrGroup(MixGroup)
     [] form = "kall_mix"  -> EngAllGroup(MixGroup)
     [] form = "kof_mix"   -> EngOfGroup(n, MixGroup)
@@ -147,7 +161,7 @@ Eng ==
 (* level, on the solver's loops and on the language layer), except under a negation or none-of  *)
 Perms == {p \in [1..k -> 1..k] : \A i, j \in 1..k : i # j => p[i] # p[j]}
 Permuted(p) == [i \in 1..k |-> rs[p[i]]]
-Commutative == form \notin {"not1", "knot"} /\ ~(form \in Thresholded /\ n = 0)
+Commutative == form \notin {"not1", "knot", "mx_not"} /\ ~(form \in Thresholded /\ n = 0)
 OrderFree ==
   \A p \in Perms :
      /\ (EngAndGroup(Permuted(p)) = "T") = (EngAndGroup(rs) = "T")
@@ -158,8 +172,8 @@ OrderFree ==
 LangOrderFree == Commutative => LangVerdicts(SrcFor(RevOrd), CaseDoc) = LangVerdicts(CaseSrc, CaseDoc)
 
 (* the engine layer agrees with the truth tables, except where a NAMED deviation applies *)
-KnownDeviation == \/ "quant_partial_batch" \in Dev /\ form \in {"kall_mix", "kof_mix"} /\ k >= 3
-                  \/ "of_single_ignores_count" \in Dev /\ form = "of_map" /\ k = 1 /\ n >= 2
+KnownDeviation == "quant_partial_batch" \in Dev /\ form \in {"kall_mix", "kof_mix"} /\ k >= 3
+
 EngInAdm  == Eng \in Adm \/ KnownDeviation
 LangIsAdm == LangEval(CaseSrc, CaseDoc) = Adm
 
@@ -173,5 +187,5 @@ Emit == pc = "done" =>
                                src |-> CaseSrc, docs |-> <<CaseDoc>>,
                                alts |-> IF EmitAlts /\ Commutative /\ k >= 2 THEN <<SrcFor(RevOrd)>> ELSE <<>>,
                                exp |-> SetSeq(Adm), eng |-> Eng,
-                               plan |-> [tri |-> TRUE, eng |-> TRUE, sws |-> << <<>> >>]]))
+                               plan |-> [tri |-> TRUE, eng |-> TRUE, scope |-> "sw", sws |-> << <<>>, <<TRUE, TRUE, TRUE, TRUE>>, <<FALSE, TRUE, FALSE, TRUE>> >>]]))
 =============================================================================
